@@ -31,7 +31,7 @@ IoChan == 1003
 
 States == {"WaitDemandActive", "WaitSync", "WaitCoop", "WaitGranted", "WaitFontMap", "Active"}
 Letters == {"DA", "SYNC", "COOP", "GRANTED", "CTLOTHER", "FONTMAP", "ERRINFO", "UNKDATA", "DEACT", "FPBMP", "FPOTHER",
-            "ULT", "OFFCHAN", "UNKCTL"}    \* session level: disconnect-provider ultimatum; a PDU on another channel than the I/O channel
+            "ULT", "OFFCHAN", "UNKCTL", "SPBMP"}    \* SPBMP: a well-formed slow-path bitmap update; session level: disconnect-provider ultimatum; a PDU on another channel than the I/O channel
 
 (***************************************************************************)
 (* Abstract server messages (what WireServer!DecServer returns).           *)
@@ -52,6 +52,7 @@ Letter(m) ==
     [] ~OffChannel(m) /\ m.kind = "FontMap"       -> "FONTMAP"
     [] ~OffChannel(m) /\ m.kind = "ErrInfo"       -> "ERRINFO"
     [] ~OffChannel(m) /\ m.kind = "UnknownData"   -> "UNKDATA"
+    [] ~OffChannel(m) /\ m.kind = "SlowBitmap"    -> "SPBMP"
     [] ~OffChannel(m) /\ m.kind = "DeactivateAll" -> "DEACT"
     [] ~OffChannel(m) /\ m.kind = "FastPath"      -> (IF HasBitmapUpdate(m) THEN "FPBMP" ELSE "FPOTHER")
 
@@ -119,7 +120,7 @@ Expected(s, l) == \/ s = "WaitDemandActive" /\ l = "DA"
                   \/ s = "WaitCoop"    /\ l = "COOP"
                   \/ s = "WaitGranted" /\ l = "GRANTED"
                   \/ s = "WaitFontMap" /\ l = "FONTMAP"
-                  \/ s = "Active"      /\ l \in {"DEACT", "FPBMP", "FPOTHER"}
+                  \/ s = "Active"      /\ l \in {"DEACT", "FPBMP", "FPOTHER", "SPBMP"}
 
 \* one call of RdpClient::read that consumes the server message m
 Srv(m) ==
@@ -139,6 +140,10 @@ Srv(m) ==
         /\ obs' = ObsNext(obs, l)
      \/ /\ act = "Active" /\ l = "FPOTHER"
         /\ UNCHANGED <<act, shareId>> /\ Quiet /\ obs' = ObsNext(obs, l)
+     \/ /\ act = "Active" /\ l = "SPBMP"       \* slow-path bitmap update: the property leaves the client free to ignore
+        /\ UNCHANGED <<act, shareId>>           \* it (what this client does) or to deliver exactly its rectangles
+        /\ out' = <<>> /\ cbs' \in {<<>>, m.rects}
+        /\ obs' = ObsNext(obs, l)
      \/ /\ act # "Active" /\ l = "DEACT"        \* DeactHandshake: the property is silent on a deactivate-all
         /\ UNCHANGED shareId /\ Quiet           \* during the handshake: staying or restarting are both allowed
         /\ \/ UNCHANGED <<act, obs>>
@@ -154,14 +159,19 @@ Srv(m) ==
 \* is read up to its first PDU only; a demand-active that follows a deactivate-all in the same train is not answered;
 \* a share control PDU of a type the client does not know ends the processing of the train with an error, so a
 \* deactivate-all standing BEHIND it in the same train is not seen - one standing before it is).
-TrainLetters == {"DA", "SYNC", "COOP", "GRANTED", "CTLOTHER", "FONTMAP", "ERRINFO", "UNKDATA", "DEACT", "UNKCTL"}
+TrainLetters == {"DA", "SYNC", "COOP", "GRANTED", "CTLOTHER", "FONTMAP", "ERRINFO", "UNKDATA", "DEACT", "UNKCTL", "SPBMP"}
+\* what a train may deliver: the rectangles of some of its slow-path bitmap updates, in train order - only of those standing
+\* BEFORE its first deactivate-all (behind it the window is closed; nothing is delivered there)
+InWindowOfTrain(ms) == { k \in 1..Len(ms) : Letter(ms[k]) = "SPBMP" /\ \A j \in 1..(k-1) : Letter(ms[j]) # "DEACT" }
+PickRects(ms, S) == LET f[k \in 0..Len(ms)] == IF k = 0 THEN <<>> ELSE f[k-1] \o (IF k \in S THEN ms[k].rects ELSE <<>>) IN f[Len(ms)]
+TrainDeliveries(ms) == { PickRects(ms, S) : S \in SUBSET InWindowOfTrain(ms) }
 TrainClass(ms) == /\ Len(ms) >= 2
                   /\ \A k \in 1..Len(ms) : Letter(ms[k]) \in TrainLetters
                   /\ \A j, k \in 1..Len(ms) : (j < k /\ Letter(ms[j]) = "DEACT") => Letter(ms[k]) # "DA"
                   /\ \A j, k \in 1..Len(ms) : (j < k /\ Letter(ms[j]) = "UNKCTL") => Letter(ms[k]) # "DEACT"
 SrvTrain(ms) ==
   /\ act = "Active" /\ TrainClass(ms)
-  /\ inres' = "none" /\ UNCHANGED <<userId, shareId>> /\ Quiet
+  /\ inres' = "none" /\ UNCHANGED <<userId, shareId>> /\ out' = <<>> /\ cbs' \in TrainDeliveries(ms)
   /\ IF \E k \in 1..Len(ms) : Letter(ms[k]) = "DEACT"
      THEN act' = "WaitDemandActive" /\ obs' = [stage |-> "da", open |-> FALSE]
      ELSE UNCHANGED <<act, obs>>
@@ -192,6 +202,7 @@ ModelMsgs ==
   \cup { [kind |-> "FastPath", updates |-> <<[t |-> "Bitmap"]>>, rects |-> rs] : rs \in RectSeqs }
   \cup { [kind |-> "FastPath", updates |-> <<[t |-> "Other", code |-> 5]>>, rects |-> <<>>] }
   \cup { [kind |-> "SrvUltimatum"], [kind |-> "UnknownControl", ptype |-> 26] }
+  \cup { [kind |-> "SlowBitmap", rects |-> rs] : rs \in RectSeqs }
   \cup { [kind |-> "Sync", channel |-> c] : c \in {1004, 1005} } \cup { [kind |-> "DemandActive", shareId |-> s, channel |-> 1004] : s \in ShareIds }
 
 ModelInputs ==
@@ -199,7 +210,7 @@ ModelInputs ==
   \cup { [t |-> "key", code |-> c, down |-> d] : c \in Coords, d \in BOOLEAN }
   \cup { [t |-> "bmp"] }
 
-ModelTrains == { <<a, b>> : a, b \in { m \in ModelMsgs : m.kind \in {"Sync", "ErrInfo", "DeactivateAll", "DemandActive", "UnknownControl"} /\ ~OffChannel(m) } }
+ModelTrains == { <<a, b>> : a, b \in { m \in ModelMsgs : m.kind \in {"Sync", "ErrInfo", "DeactivateAll", "DemandActive", "UnknownControl", "SlowBitmap"} /\ ~OffChannel(m) } }
 Next == \/ \E m \in ModelMsgs : Srv(m)
         \/ \E ms \in ModelTrains : SrvTrain(ms)
         \/ \E e \in ModelInputs, len \in BOOLEAN : Input(e, len)
@@ -219,8 +230,12 @@ WindowAgreement == (act = "Active") <=> obs.open
 InputGated == /\ inres = "sent" => obs.open /\ Len(out) = 1 /\ out[1].kind = "Input"
               /\ inres \in {"refused", "dropped"} => out = <<>>
 
-\* bitmap events are delivered only inside the window
-BitmapsInWindow == cbs # <<>> => obs.open
+\* bitmap events are delivered only inside the window: by a step that ends inside it, or by the very step that closes it
+\* (a train whose slow-path bitmap updates stand before its deactivate-all - SrvTrain is the only step that ends in
+\* stage "da" with deliveries, and it starts in the window)
+BitmapsInWindow == cbs # <<>> => (obs.open \/ obs.stage = "da")
+\* ... and never by a step that STARTS outside the window (action property)
+BitmapsStartInWindow == [][cbs' # <<>> => obs.open]_vars
 
 IsFinalise(o) == Len(o) = 5 /\ o[1].kind = "ConfirmActive" /\ o[2].kind = "Sync" /\ o[3].kind = "Control"
                  /\ o[3].action = 4 /\ o[4].kind = "Control" /\ o[4].action = 1 /\ o[5].kind = "FontList"
